@@ -140,6 +140,29 @@ def mutation_case(col, rng):
             col.add(None)
 
 
+def groups_case(col, rng):
+    """the groups a model reports hold the model's OWN members (also for copy=True and deep copies)"""
+    for how in ("copy_false", "copy_true", "deepcopy"):
+        a = lsl.param(np.float32(0.3), lsl.Dist(tfd.Normal, loc=0.0, scale=2.0), name="a")
+        b = lsl.Var(lsl.Calc(lambda x: jnp.asarray(x) * 2.0, a), name="b")
+        gb = lsl.GraphBuilder().add(b)
+        gb.add_groups(lsl.Group("grp", a=a, b=b))
+        m = gb.build_model(copy=(how == "copy_true"))
+        if how == "deepcopy":
+            m = copy.deepcopy(m)
+        g = m.groups().get("grp")
+        bad = None
+        if g is None or sorted(g.vars) != ["a", "b"]:
+            bad = "group missing or members missing"
+        elif g["a"] is not m.vars["a"] or g["b"] is not m.vars["b"]:
+            bad = "group member is not the variable held by the model"
+        else:
+            g["a"].value = np.float32(1.5)
+            if float(m.vars["b"].value) != 3.0:
+                bad = "assigning through the group member does not act on the model"
+        col.add({"sig": "native::structure::groups", "what": f"{how}: {bad}", "input": {"build": how}} if bad else None)
+
+
 def dropped_model_case(col):
     """nodes of a model that was dropped (not popped) are re-wired and rebuilt"""
     import gc
@@ -166,6 +189,10 @@ def dropped_model_case(col):
 def bounded(tier, seed):
     rng = np.random.default_rng(seed)
     col = util.Collector()
+    try:
+        groups_case(col, rng)
+    except Exception as e:
+        col.add({"sig": f"native::structure::exception::{type(e).__name__}", "what": str(e)[:200], "input": {"scenario": "groups"}})
     try:
         dropped_model_case(col)
     except Exception as e:
